@@ -100,6 +100,32 @@ class ModelReplay:
         if name == "UserTry":
             self.login = self.r.user("try-submit-jobs", self.w.out)
             return
+        if name == "NodeKill":
+            hid = self.hid_of(a)
+            if w.batches[hid]["state"] != "RUNNING":
+                raise Divergence(f"batch {a} is not running")
+            w.do(("nodekill", hid, "kill"))
+            return
+        if name == "Kill":
+            p = self.proc_of(a)
+            if not p.alive:
+                raise Divergence(f"process of slot {a} already ended")
+            w.do(("kill", p.pid, "model"))
+            return
+        if name in ("SubmitBatchFail", "PollFail"):
+            p = self.proc_of(a)
+            cmd = "sbatch" if name == "SubmitBatchFail" else "squeue"
+            if cmd == "sbatch":
+                w.sbatch_plan[str(x)] = 7
+            else:
+                w.squeue_fail = 7
+            for k in range(7):            # num_retries=6: seven attempts, a sleep between two of them
+                self.expect(p, "popen", cmd)
+                self.step(p)
+                if k < 6:
+                    self.expect(p, "sleep")
+                    self.step(p)
+            return
         p = self.proc_of(a)
         if name in ("Promote", "CheckComplete", "MarkComplete", "Demote"):
             self.expect(p, "lock", "cluster")
@@ -231,6 +257,8 @@ def norm(e, idmap):
         return ["exit", e["pid"], e["k"], e["code"], e["exc"]]
     if k == "squeue":
         return ["squeue", e["ok"]]
+    if k in ("kill", "nodekill"):
+        return [k, e["pid"]]
     return None
 
 
